@@ -12,7 +12,7 @@ CLAIMED = {
                 "free dart) preserves the well-formedness predicate WF 3 under the property's argument guard, lifted to every finite "
                 "history by induction; the hand-written model is tied to /repo on every run by an exhaustive small-scope + random "
                 "differential run of the real CMap2 against the compiled model, and the WF predicate is also evaluated on the real map. Props/C01b.lean: whatever the outcome of a transactional call (success, refusal, attribute failure) the state it leaves INSIDE the transaction is well formed, so a user transaction that swallows the refusal and commits publishes a well-formed map (C01_any_outcome_preserves_WF, C01_swallowed_abort_preserves_WF; stream `txi`).",
-        "note": "CMap2::one_sew / one_unsew of dim2/sews/one.rs are re-translated too (Gen/Sews2.lean) and proved equal to oneSew2 / oneUnsew2 (Props/C01Gen2.lean). The six *_core functions of components/betas.rs are RE-TRANSLATED from the source on every run (Gen/LinkCores.lean) and proved equal as programs to the link cores of the model (Props/C01Gen.lean); the rest of the model is hand-written. Trusted: Lean kernel + {propext, Classical.choice, Quot.sound}; the model is hand-written (tie = differential run, "
+        "note": "All four sews of a 2-map (one_sew, one_unsew, two_sew with its orientation test, two_unsew; dim2/sews/one.rs and two.rs) are re-translated too (Gen/Sews2.lean) and proved equal as programs to oneSew2 / oneUnsew2 / twoSew2 / twoUnsew2 (Props/C01Gen2.lean). The six *_core functions of components/betas.rs are RE-TRANSLATED from the source on every run (Gen/LinkCores.lean) and proved equal as programs to the link cores of the model (Props/C01Gen.lean); the rest of the model is hand-written. Trusted: Lean kernel + {propext, Classical.choice, Quot.sound}; the model is hand-written (tie = differential run, "
                 "exhaustive for n<=3 darts quick / n<=4 thorough); fast-stm modelled sequentially here (concurrency is C07).",
         "design_ref": "DESIGN.md §7 C01",
     },
@@ -107,7 +107,7 @@ CLAIMED = {
                 "split*; BadGeometry refusal exactly when all four coordinates are defined and the direction test fails; a rejected law "
                 "fails the call. Tie: exhaustive WF 2-maps n<=3/4 x all sews x value patterns with free-term attribute values on the "
                 "real CMap2 vs the model; Python oracle recomputes CELLS independently and checks merge/split placement per cell.",
-        "note": "CMap2::one_sew / one_unsew of dim2/sews/one.rs are re-translated too (Gen/Sews2.lean) and proved equal to oneSew2 / oneUnsew2 (Props/C01Gen2.lean). AttrSparseVec::merge / split of attributes/collections.rs (guard, reads, law dispatch table, writes in order) are RE-TRANSLATED from the source on every run (Gen/AttrMoves.lean) and proved equal as programs to mergeS / splitS of the model (Props/C04Gen.lean). Trusted: Lean kernel + 3 standard axioms; hand-written model. Cell level (Props/C04Cells*.lean, cell calculus in "
+        "note": "All four sews of a 2-map (one_sew, one_unsew, two_sew with its orientation test, two_unsew; dim2/sews/one.rs and two.rs) are re-translated too (Gen/Sews2.lean) and proved equal as programs to oneSew2 / oneUnsew2 / twoSew2 / twoUnsew2 (Props/C01Gen2.lean). AttrSparseVec::merge / split of attributes/collections.rs (guard, reads, law dispatch table, writes in order) are RE-TRANSLATED from the source on every run (Gen/AttrMoves.lean) and proved equal as programs to mergeS / splitS of the model (Props/C04Gen.lean). Trusted: Lean kernel + 3 standard axioms; hand-written model. Cell level (Props/C04Cells*.lean, cell calculus in "
                 "Lemmas/CellCalc.lean): for 1-sew, 1-unsew, all four arms of 2-sew and every arm of 2-unsew the computed ids ARE "
                 "the minima of the cells and 'new cell = union of the two old cells, every other cell unchanged' is a theorem (for the "
                 "2-sew of two darts with successors the minima statement is under the property's proviso).",
@@ -378,7 +378,7 @@ def main():
             "path": "/verif/lean, /verif/harness, /verif/tools",
             "serves_properties": sorted(CLAIMED),
             "kind_free_text": "Lean 4 model + theorems (lake build, #print axioms audit, leanchecker in thorough); compiled model driver "
-                              "hcmodel vs Rust harness hcimpl over the real crates; Python orchestrator tools/check.py; translator tools/gen_lean.py regenerates Gen/*.lean (grid tables, anchor laws, orbit arms, link cores, attribute merge/split, CMap3 1-links, CMap2 1-sews) from /repo on every run",
+                              "hcmodel vs Rust harness hcimpl over the real crates; Python orchestrator tools/check.py; translator tools/gen_lean.py regenerates Gen/*.lean (grid tables, anchor laws, orbit arms, link cores, attribute merge/split, CMap3 1-links, all CMap2 sews) from /repo on every run",
         }],
         "checks": checks,
         "not_applicable": na,
